@@ -403,6 +403,19 @@ class P:
             path = [self.ident()]
             if self.at("!") and not self.at("!="):
                 self.i += 1
+                if path[0] == "format":
+                    self.eat("(")
+                    t = self.peek()
+                    if t[0] != "str":
+                        die("%s: format! without a literal format string" % self.what)
+                    self.i += 1
+                    fargs = []
+                    while self.opt(","):
+                        if self.at(")"):
+                            break
+                        fargs.append(self.expr())
+                    self.eat(")")
+                    return ("format", t[1], fargs)
                 if path[0] != "matches":
                     die("%s: macro %s! is outside the translated subset" % (self.what, path[0]))
                 self.eat("(")
@@ -646,6 +659,33 @@ class Lower:
             if set(got) != {"cache_rel", "server_rel"}:
                 self.die("FileLookup literal with fields %s" % sorted(got))
             return "{| cache_rel := %s; server_rel := %s |}" % (got["cache_rel"], got["server_rel"]), LOOKUP
+        if k == "format":
+            # only `{}` and `{name}` placeholders of string-typed values: a concatenation
+            text = bytes(e[1]).decode("utf-8")
+            parts, args, pos = [], list(e[2]), 0
+            for m in re.finditer(r"\{\{|\}\}|\{(\w*)\}|\{[^}]*\}", text):
+                if m.group(0) in ("{{", "}}") or m.group(1) is None:
+                    self.die("format! with an escape or a format spec (%s)" % m.group(0))
+                if m.start() > pos:
+                    parts.append(zlist(list(text[pos:m.start()].encode("utf-8"))))
+                pos = m.end()
+                if m.group(1):
+                    t, ty = self.low(("var", m.group(1)), env)
+                else:
+                    if not args:
+                        self.die("format! with more placeholders than arguments")
+                    t, ty = self.low(args.pop(0), env)
+                if ty == DIDBP:
+                    ty = STR
+                self.want(ty, STR, "format! argument")
+                parts.append(t)
+            if args:
+                self.die("format! with more arguments than placeholders")
+            if pos < len(text):
+                parts.append(zlist(list(text[pos:].encode("utf-8"))))
+            if not parts:
+                return "[]", STR
+            return "(" + " ++ ".join(parts) + ")", STR
         if k == "cast":
             return self.low(e[1], env)
         self.die("unsupported expression form %s" % k)
@@ -685,6 +725,8 @@ class Lower:
             if op in f:
                 return "(" + f[op] % (a, b) + ")", BOOL
             return "(" + f[{">": "<", ">=": "<="}[op]] % (b, a) + ")", BOOL
+        if op == "+" and ta == STR and tb == STR:
+            return "(%s ++ %s)" % (a, b), STR                 # String + &str
         if op == "+":
             # usize addition on indices/lengths of one in-memory string: cannot overflow
             self.want(ta, NAT, "operand of +")
